@@ -157,3 +157,38 @@ for _r in (False, True):
         for _c in (False, True):
             for _k in (False, True):
                 _surface_contract(_r, _a, _c, _k)
+
+
+@contract('C16.requery', [CO + ':SimpleCoating.transmit', CO + ':SimpleCoating.reflect', RR + ':RealRays.propagate', SS + ':Surface._trace_real'],
+          ['C16', 'C13'], bundle=True, max_paths=64)
+def requery(c):
+    """edit-then-ask: coating factors, the extinction coefficient and the coating object of a surface are read when rays are
+    traced, not remembered from an earlier trace"""
+    co = c.mod('optiland.coatings').SimpleCoating(c.real('T_before', 0.0, 1.0, nonneg=True), c.real('R_before', 0.0, 1.0, nonneg=True))
+    i0 = c.real('i0', 0.0, 1.0, nonneg=True)
+    n = (c.arr(0.0), c.arr(0.0), c.arr(1.0))
+    warm = mk_rays(c, free_point(c), c.unit3('L', 'M', 'N'), intensity=i0)
+    co.interact(warm, reflect=False, nx=n[0], ny=n[1], nz=n[2]), co.interact(warm, reflect=True, nx=n[0], ny=n[1], nz=n[2])
+    T, Rf = c.real('T', 0.0, 1.0, nonneg=True), c.real('Rf', 0.0, 1.0, nonneg=True)
+    co.transmittance, co.reflectance = T, Rf
+    r1 = mk_rays(c, free_point(c), c.unit3('L', 'M', 'N'), intensity=i0)
+    co.interact(r1, reflect=False, nx=n[0], ny=n[1], nz=n[2])
+    c.ensure_eq('C16.requery.coating_uses_current_transmittance', c.val(r1.i), i0 * T)
+    r2 = mk_rays(c, free_point(c), c.unit3('L', 'M', 'N'), intensity=i0)
+    co.interact(r2, reflect=True, nx=n[0], ny=n[1], nz=n[2])
+    c.ensure_eq('C16.requery.coating_uses_current_reflectance', c.val(r2.i), i0 * Rf)
+    # a surface whose coating / medium is replaced after a first trace
+    surfs, mats, geos = c.mod('optiland.surfaces'), c.mod('optiland.materials'), c.mod('optiland.geometries')
+    CoordinateSystem = c.mod('optiland.coordinate_system').CoordinateSystem
+    zv = c.real('zv', 1, 5, positive=True)
+    surf = surfs.Surface(geos.Plane(CoordinateSystem(z=zv)), mats.IdealMaterial(1.0, c.real('k_before', 0.0, 1e-4, nonneg=True)), mats.IdealMaterial(1.5, 0.0),
+                         coating=c.mod('optiland.coatings').SimpleCoating(c.real('Ts_before', 0.0, 1.0, nonneg=True), 0.0))
+    surf.trace(mk_rays(c, (0.0, 0.0, 0.0), (0.0, 0.0, 1.0), intensity=i0))
+    k2 = c.real('k', 0.0, 1e-4, nonneg=True)
+    surf.material_pre = mats.IdealMaterial(1.0, k2)
+    surf.coating = c.mod('optiland.coatings').SimpleCoating(T, 0.0)
+    w = 0.55
+    r3 = mk_rays(c, (0.0, 0.0, 0.0), (0.0, 0.0, 1.0), intensity=i0, w=w)
+    surf.trace(r3)
+    c.ensure_eq('C16.requery.surface_uses_current_coating_and_extinction', c.val(r3.i),
+                i0 * T * c.exp(-(4 * c.pi * k2 / w) * zv * 1e3))
